@@ -2174,6 +2174,12 @@ class tensor:
         # Extract array of subscripts
         subs = key
 
+        if np.size(value) not in (1, subs.shape[0]):
+            raise ValueError(
+                f"Number of values ({np.size(value)}) does not match "
+                f"number of subscripts ({subs.shape[0]})"
+            )
+
         # Will the size change? If so we first need to resize x
         n = self.ndims
         bsiz = np.array(np.max(subs, axis=0))
